@@ -21,6 +21,9 @@ FAMILIES = {
     "mutateB": {"quick": 600, "thorough": 20000},   # C08 only: the scripted peer's byte stream corrupted (bit flips, replaced / dropped / doubled octets) after the preface, both roles, any fragmentation
     "rstRaceBc": {"quick": 150, "thorough": 3000},   # complete response, then the peer's RST_STREAM(X), then the application's own send_reset(Y): X surfaces, never Y
     "pushRaceBs": {"quick": 150, "thorough": 3000},  # server pushes vs a scripted client that refuses (RST_STREAM) / credits (WINDOW_UPDATE) the promised streams while they are reserved, answered-but-queued, or waiting for a concurrency slot (client MAX_CONCURRENT_STREAMS 0 / 1 / raised late)
+    "pushRaceBc": {"quick": 150, "thorough": 3000},  # scripted server pushes on requests the real client is cancelling (ResponseFuture dropped, RST_STREAM perhaps not yet written) with max_concurrent_reset_streams 0 / 1 / default: the parent may already be forgotten when the PUSH_PROMISE arrives
+    "cancelA": {"quick": 150, "thorough": 3000},   # cooperative real pair: streams abandoned with work still queued (DATA buffered / capacity reserved / response half sent) by dropping the last handle or resetting, on either side; then a witness exchange of more than a connection window each way must complete and all bookkeeping must be back to idle
+    "capWaitBc": {"quick": 100, "thorough": 2000},   # the ways a writer comes to wait in poll_capacity with the "capacity changed" flag still set (grant consumed without polling, grant taken back by SETTINGS before the woken task ran, reserve(0) in between): the next grant must wake it; cooperative in the end
     "wuBurstBs": {"quick": 40, "thorough": 300},   # 40-130 streams owe a WINDOW_UPDATE at once while the endpoint's writes are blocked and its write buffer is nearly full
     "inlineA": {"quick": 600, "thorough": 12000},   # C20: handle operations executed INSIDE the read / write / flush callbacks of the connection task (parked handles), real client <-> real server
     "threadsA": {"quick": 1500, "thorough": 40000},   # C20: REAL parallel executions: connections and every request half on their own OS threads; handle call + log entry atomic under the transport's mutex, so the trace is a valid linearization
@@ -35,7 +38,7 @@ SEND_SLICE = {"module": "MC_Send", "cfg_quick": "MC_Send_quick.cfg", "cfg_thorou
               "constants": "2 streams, IW=2 CW=3 MF=2 units, sends {3}, WU {2}, SETTINGS {0,3}, reserve {2}, 1 reset; every interleaving with a frame parked in the codec",
               "timeout_thorough": 2400, "coverage": False}
 
-WIRE_AB = ["mixA", "mixAd", "bpReset", "flowBs", "flowBc", "capRace", "ctlB", "concBc", "faultA", "goawayBc", "shutdownA", "abuseB", "shutdownBs", "floodBs", "floodBc", "wuBurstBs", "rstRaceBc", "pushRaceBs"]
+WIRE_AB = ["mixA", "mixAd", "bpReset", "flowBs", "flowBc", "capRace", "ctlB", "concBc", "faultA", "goawayBc", "shutdownA", "abuseB", "shutdownBs", "floodBs", "floodBc", "wuBurstBs", "rstRaceBc", "pushRaceBs", "pushRaceBc", "cancelA", "capWaitBc"]
 
 RECV_SLICE = {"module": "MC_Recv", "cfg_quick": "MC_Recv_quick.cfg", "cfg_thorough": "MC_Recv_thorough.cfg",
               "constants": "2 streams, IW=6 CW=8, DATA {0,1,6} x padding {0,1} x END_STREAM, release {1,2}, 1 handle drop, 1 reset either side, target {6,10}, SETTINGS {1,8} applied at the peer's ACK; legal peer; leak rules at every quiescent state",
@@ -78,7 +81,7 @@ PLAN = {
             "must_hit": ["C04.stream_kind", "C04.id_order", "C04.after_es", "C04.data_state", "C04.contiguous"]},
     "C05": {"rules": ["C05."], "families": WIRE_AB + ["conformStreams"], "slices": [STREAMS_SLICE], "level": "model_checking",
             "must_hit": ["C05.send_limit"]},
-    "C06": {"rules": ["C06."], "families": ["mixA", "mixAd", "bpReset", "conformTasks"], "slices": TASKS_SLICES, "level": "model_checking", "must_hit": ["C06.progress"]},
+    "C06": {"rules": ["C06."], "families": ["mixA", "mixAd", "bpReset", "cancelA", "capWaitBc", "conformTasks"], "slices": TASKS_SLICES, "level": "model_checking", "must_hit": ["C06.progress"]},
     "C07": {"rules": ["C07."], "families": WIRE_AB, "slices": [], "level": "fault_enumeration", "must_hit": ["C07.resolved"]},
     "C08": {"rules": ["C08."], "families": WIRE_AB + ["mutateB"], "slices": [], "level": "exploration", "must_hit": []},
     "C09": {"rules": ["C09."], "families": WIRE_AB, "slices": [], "level": "exploration", "must_hit": ["C09.conn_error", "C09.stream_error", "C09.legal_not_penalised"]},
